@@ -59,6 +59,7 @@ def check(tier, seed):
     with C.WorkDir('C11') as wd:
         C.audit_sources()
         C.props_obligations(res, 'C11', wd)
+        C.tie_b_kernels(res, wd, ('ck', 'ubx'))
         rng = C.rng_for(seed, 'C11')
         cases = []
         for _ in range(400 if tier == 'quick' else 15000):
